@@ -372,8 +372,16 @@ def make_as_completed(env: ExecEnv):
         if env.ac_rounds >= 2:
             env.sim.probe("second_as_completed_round")
         env.sim.log("as_completed", len(remaining))
+        # the real contract of `timeout`: a deadline fixed when the iteration starts; futures that were already finished
+        # at that instant are handed out regardless; after that, whenever unfinished-or-not-yet-collected futures
+        # remain and the deadline has passed, TimeoutError - the time the consumer spends between two next() counts
+        end_ns = None if timeout is None else env.sim.now_ns + int(timeout * 1e9)
+        initial = {f for f in remaining if f.done()}
         while remaining:
             env.tick("as_completed")
+            if end_ns is not None and not (initial & remaining) and env.sim.now_ns > end_ns:
+                env.sim.probe("as_completed_deadline_passed")
+                raise TimeoutError(f"{len(remaining)} (of {len(order)}) futures unfinished")
             done = sorted((f for f in remaining if f.done()), key=order.__getitem__)
             if not done:
                 env.wait_until(lambda: any(f.done() for f in remaining), "as_completed waits for futures nothing can complete")
